@@ -237,6 +237,45 @@ func VerifC03_SearchableLongPlaintextThenNext() {
 	verif.Reach("second-read")
 }
 
+// VerifC03_SearchableTruncation: a stored searchable value (index ++ envelope) cut off at any length goes through the
+// read path without bringing it down, and comes back as it was stored (or, while still complete, as the original).
+func VerifC03_SearchableTruncation() {
+	crypto.InitRegistry(nil)
+	s := verifStore()
+	rh := crypto.NewRegistryHandler(s)
+	st := verifSetting(verif.Choose("envelope", 0, 1))
+	enc, _ := NewSearchableEncryptor(s, rh, rh)
+	// concrete HMAC key and plaintext: the index is then a concrete 33-byte value (the cut position is what varies)
+	s.HMAC["A"] = []byte("hmac-key-of-client-A-0123456789ab")
+	plain := []byte("p")
+	v, err := enc.EncryptWithClientID([]byte("A"), verifDup(plain), st)
+	if err != nil {
+		return
+	}
+	cut := verif.Choose("cut", 0, len(v))
+	col := make([]byte, cut) // exactly that long, no spare capacity behind it
+	copy(col, v)
+	proc := NewHMACProcessor(s)
+	det := crypto.NewEnvelopeDetector()
+	wrapper := crypto.NewOldContainerDetectorWrapper(det)
+	det.AddCallback(crypto.NewDecryptHandler(s, rh))
+	ctx := verifCtx("A")
+	ctx, out, _ := proc.OnColumn(ctx, verifDup(col))
+	ctx, out, _ = wrapper.OnColumn(ctx, out)
+	_, out, _ = proc.OnColumn(ctx, out)
+	verif.Reach("read")
+	if cut == len(v) {
+		verif.Assert(verif.Eq(out, plain), "complete-value-revealed")
+	} else {
+		verif.Assert(verif.Eq(out, col), "truncated-value-unchanged")
+	}
+	// the stand-alone parsers of the same value
+	h := ExtractHash(verifDup(col))
+	if h != nil {
+		verif.Assert(h.Length() <= cut, "hash-within-data")
+	}
+}
+
 // VerifC14_ExtractHash: arbitrary bytes never panic the hash extractor.
 func VerifC14_ExtractHash() {
 	n := verif.Choose("n", 0, 36)
